@@ -405,6 +405,7 @@ def mat_result_by_key(res, rnames):
 
 class C12(Prop):
     ID = "C12"
+    LAST_DIGITS = 1e-13       # correspondence: see core.Prop.LAST_DIGITS (the transformed amplitude is a quotient of products)
     SOURCES = [
         "src/pylife/strength/meanstress.py",
         "src/pylife/stress/collective/load_collective.py",
